@@ -46,6 +46,15 @@ def halfQuad (n : Nat) (A : Mat) (d : Vec) : Rat := (sumTo n fun i => d i * mulV
 def distCheck (n : Nat) (A : Mat) (tol x z : Vec) : Bool :=
   decide (halfQuad n A (fun i => x i - z i) ≤ gapBound n tol x z)
 
+/-- tabulate on `[0,n)`; the state of the machine is kept in arrays so that the executable model does no
+    recomputation -/
+def tab {α : Type} (n : Nat) (f : Nat → α) : Array α := ((List.range n).map f).toArray
+
+/-- `a[i]`, 0 beyond the end -/
+def at0 (a : Array Rat) (i : Nat) : Rat := a.getD i 0
+/-- `a[i]`, false beyond the end -/
+def atF (a : Array Bool) (i : Nat) : Bool := a.getD i false
+
 /-! ## exact elimination -/
 
 /-- Gauss–Jordan on an augmented `k × (k+1)` system without row exchanges; `none` at a zero pivot.
@@ -74,24 +83,23 @@ def spdCert (n : Nat) (A : Mat) : Bool :=
 def maskSet (n mask : Nat) : List Nat := (List.range n).filter fun i => mask.testBit i
 
 /-- scatter the subsystem solution back: zero outside the support -/
-def scatter (n : Nat) (S : List Nat) (xs : Array Rat) : Vec :=
-  let a : Array Rat := (S.zip xs.toList).foldl (fun a (p : Nat × Rat) => a.setIfInBounds p.1 p.2) (Array.replicate n 0)
-  fun i => a.getD i 0
+def scatter (n : Nat) (S : List Nat) (xs : Array Rat) : Array Rat :=
+  (S.zip xs.toList).foldl (fun a (p : Nat × Rat) => a.setIfInBounds p.1 p.2) (Array.replicate n 0)
 
-/-- exact solution of `A_SS x_S = b_S`, extended by zero -/
-def solveOn (n : Nat) (A : Mat) (b : Vec) (S : List Nat) : Option Vec :=
+/-- exact solution of `A_SS x_S = b_S`, extended by zero (as an array of length `n`) -/
+def solveOn (n : Nat) (A : Mat) (b : Vec) (S : List Nat) : Option (Array Rat) :=
   let k := S.length
   let M := (S.map fun r => ((S.map fun c => A r c) ++ [b r]).toArray).toArray
   match gaussJordan k M with
   | none => none
   | some (R, _) => some (scatter n S (R.map fun row => row.getD k 0))
 
-def tryMask (n : Nat) (A : Mat) (b : Vec) (mask : Nat) : Option Vec :=
+def tryMask (n : Nat) (A : Mat) (b : Vec) (mask : Nat) : Option (Array Rat) :=
   match solveOn n A b (maskSet n mask) with
   | none => none
-  | some x => if kktCheck n A b x (fun _ => 0) then some x else none
+  | some x => if x.all (fun v => decide (0 ≤ v)) && kktCheck n A b (at0 x) (fun _ => 0) then some x else none
 
-def refSearch (n : Nat) (A : Mat) (b : Vec) : (fuel : Nat) → (mask : Nat) → Option Vec
+def refSearch (n : Nat) (A : Mat) (b : Vec) : (fuel : Nat) → (mask : Nat) → Option (Array Rat)
   | 0, _ => none
   | f+1, mask =>
     match tryMask n A b mask with
@@ -99,26 +107,18 @@ def refSearch (n : Nat) (A : Mat) (b : Vec) : (fuel : Nat) → (mask : Nat) → 
     | none => refSearch n A b f (mask+1)
 
 /-- Reference NNLS solver (n ≤ 12 in the check): first support whose exact subsystem solution is a KKT point. -/
-def refNnls (n : Nat) (A : Mat) (b : Vec) : Option Vec := refSearch n A b (2^n) 0
+def refNnls (n : Nat) (A : Mat) (b : Vec) : Option (Array Rat) := refSearch n A b (2^n) 0
 
 /-! ## BLOCK3 (`nnls_normal_block3` + `walk_descents`) as a state machine -/
-
-/-- tabulate a vector on `[0,n)` (so that closures do not pile up when the model is executed); 0 beyond -/
-def memo (n : Nat) (f : Nat → Rat) : Nat → Rat :=
-  let a : Array Rat := ((List.range n).map f).toArray
-  fun i => a.getD i 0
-
-def memoB (n : Nat) (f : Nat → Bool) : Nat → Bool :=
-  let a : Array Bool := ((List.range n).map f).toArray
-  fun i => a.getD i false
 
 /-- The environment of the solver: everything CHOLMOD computes.  Arbitrary in `block3_nonneg_invariant`. -/
 structure B3Env where
   n : Nat
   /-- `kkt_tolerance = nvar * DBL_EPSILON * 1e5` -/
   tol : Rat
-  /-- `modify_factor` + `cholmod_l_solve`: the solution on the passive set `F` (value used only on `F`) -/
-  solve : (Nat → Bool) → Nat → Rat
+  /-- `modify_factor` + `cholmod_l_solve`: the solution on the passive set `F`, indexed by coordinate
+      (only the entries on `F` are used) -/
+  solve : (Nat → Bool) → Array Rat
   /-- `calc_residual` of a trial point on `F` -/
   resid : (Nat → Bool) → (Nat → Rat) → Rat
   /-- `y[G_] = AtA[G_,F_] x[F_] − Atb[G_]` -/
@@ -129,10 +129,10 @@ structure B3Env where
   innerFuel : Nat
 
 structure B3State where
-  x : Nat → Rat
-  y : Nat → Rat
-  inF : Nat → Bool
-  h1 : Nat → Bool
+  x : Array Rat
+  y : Array Rat
+  inF : Array Bool
+  h1 : Array Bool
   /-- `optimal_on_F`: `x[F]` is the accepted solution of the subproblem on `F` -/
   optF : Bool
   /-- branch trace for the correspondence: (#accepted full steps, #boundary bindings, #projected walks) -/
@@ -153,10 +153,13 @@ def insDesc (a : Rat) : List Rat → List Rat
 
 def sortDesc (l : List Rat) : List Rat := l.foldr insDesc []
 
-/-- trial point of `evaluate_descent`: interpolate on `F`, project, remember what was clamped -/
-def trialPoint (inF : Nat → Bool) (x xF : Nat → Rat) (alpha : Rat) : (Nat → Rat) × (Nat → Bool) :=
-  (fun i => if inF i then (let v := (1 - alpha) * x i + alpha * xF i; if v < 0 then 0 else v) else x i,
-   fun i => inF i && decide ((1 - alpha) * x i + alpha * xF i < 0))
+/-- one coordinate of the trial point of `evaluate_descent`: interpolate on `F`, project -/
+def trialVal (inF : Nat → Bool) (x xF : Nat → Rat) (alpha : Rat) (i : Nat) : Rat :=
+  if inF i then (if (1 - alpha) * x i + alpha * xF i < 0 then 0 else (1 - alpha) * x i + alpha * xF i) else x i
+
+/-- … and whether it was clamped (goes to `H1`) -/
+def trialClamp (inF : Nat → Bool) (x xF : Nat → Rat) (alpha : Rat) (i : Nat) : Bool :=
+  inF i && decide ((1 - alpha) * x i + alpha * xF i < 0)
 
 /-- the distances tried by `walk_descents` after `alpha[0] = 0`: `1`, then the constraint crossings in (0,1), descending -/
 def walkAlphas (n : Nat) (inF : Nat → Bool) (x xF : Nat → Rat) : List Rat :=
@@ -164,72 +167,67 @@ def walkAlphas (n : Nat) (inF : Nat → Bool) (x xF : Nat → Rat) : List Rat :=
       let a := x i / (x i - xF i)
       if a < 1 ∧ 0 < a then some a else none)
 
-/-- scan the trials in order; accept the first one that reduces the residual, or the last one -/
-def walkScan (E : B3Env) (inF : Nat → Bool) (x xF : Nat → Rat) (res0 : Rat) :
-    List Rat → (Nat → Rat) × (Nat → Bool) × Bool
-  | [] => (x, fun _ => false, false)          -- unreachable: the list starts with 1
-  | [a] =>
-    let t := trialPoint inF x xF a
-    (t.1, t.2, decide (E.resid inF t.1 < res0))
+/-- scan the trials in order; accept the first one that reduces the residual, or the last one.
+    Returns the accepted distance and `feasible`. -/
+def walkScan (E : B3Env) (inF : Nat → Bool) (x xF : Nat → Rat) (res0 : Rat) : List Rat → Rat × Bool
+  | [] => (0, false)          -- unreachable: the list starts with 1
+  | [a] => (a, decide (E.resid inF (trialVal inF x xF a) < res0))
   | a :: b :: rest =>
-    let t := trialPoint inF x xF a
-    if E.resid inF t.1 < res0 then (t.1, t.2, true) else walkScan E inF x xF res0 (b :: rest)
+    if E.resid inF (trialVal inF x xF a) < res0 then (a, true) else walkScan E inF x xF res0 (b :: rest)
 
-/-- `walk_descents`: new `x`, the clamped set `H1`, and `feasible` -/
-def walkDescents (E : B3Env) (inF : Nat → Bool) (x xF : Nat → Rat) : (Nat → Rat) × (Nat → Bool) × Bool :=
-  let res0 := E.resid inF (trialPoint inF x xF 0).1
-  walkScan E inF x xF res0 (walkAlphas E.n inF x xF)
+/-- `walk_descents`: the accepted distance along the descent vector and `feasible` -/
+def walkDescents (E : B3Env) (inF : Nat → Bool) (x xF : Nat → Rat) : Rat × Bool :=
+  walkScan E inF x xF (E.resid inF (trialVal inF x xF 0)) (walkAlphas E.n inF x xF)
 
 def countB (n : Nat) (p : Nat → Bool) : Nat := ((List.range n).filter p).length
 
 /-- the `while (!feasible)` loop; `h2` are the pending additions (non-empty only on entry) -/
-def innerLoop (E : B3Env) : (fuel : Nat) → B3State → (h2 : Nat → Bool) → Option B3State
+def innerLoop (E : B3Env) : (fuel : Nat) → B3State → (h2 : Array Bool) → Option B3State
   | 0, _, _ => none
   | fuel+1, s, h2 =>
     -- modify_factor: F := (F \ H1) ∪ H2, H1 = H2 = ∅
-    let inF := memoB E.n fun i => (s.inF i && !s.h1 i) || h2 i
-    let xF := memo E.n (E.solve inF)
-    let nInf := countB E.n fun i => inF i && decide (xF i < 0)
-    let nBnd := countB E.n fun i => inF i && decide (xF i < 0) && decide (s.x i < E.tol)
+    let inF := tab E.n fun i => (atF s.inF i && !atF s.h1 i) || atF h2 i
+    let xF := E.solve (atF inF)
+    let nInf := countB E.n fun i => atF inF i && decide (at0 xF i < 0)
+    let nBnd := countB E.n fun i => atF inF i && decide (at0 xF i < 0) && decide (at0 s.x i < E.tol)
     if nInf = 0 then
       -- "Solution entirely feasible": accept it
-      some { s with x := memo E.n fun i => if inF i then xF i else s.x i, inF := inF, h1 := fun _ => false,
+      some { s with x := tab E.n fun i => if atF inF i then at0 xF i else at0 s.x i, inF := inF, h1 := #[],
                     optF := true, nFull := s.nFull + 1 }
     else if nInf = nBnd then
       -- "descent at boundary": bind the negative coefficients and try again
-      let h1 := memoB E.n fun i => inF i && decide (xF i < 0)
-      innerLoop E fuel { s with x := memo E.n fun i => if h1 i then 0 else s.x i, inF := inF, h1 := h1,
-                                nBoundary := s.nBoundary + 1 } (fun _ => false)
+      let h1 := tab E.n fun i => atF inF i && decide (at0 xF i < 0)
+      innerLoop E fuel { s with x := tab E.n fun i => if atF h1 i then 0 else at0 s.x i, inF := inF, h1 := h1,
+                                nBoundary := s.nBoundary + 1 } #[]
     else
-      let w := walkDescents E inF s.x xF
-      let s' : B3State := { s with x := memo E.n w.1, inF := inF, h1 := memoB E.n w.2.1, optF := false,
+      let w := walkDescents E (atF inF) (at0 s.x) (at0 xF)
+      let s' : B3State := { s with x := tab E.n (trialVal (atF inF) (at0 s.x) (at0 xF) w.1), inF := inF,
+                                   h1 := tab E.n (trialClamp (atF inF) (at0 s.x) (at0 xF) w.1), optF := false,
                                    nWalk := s.nWalk + 1 }
-      if w.2.2 then some s' else innerLoop E fuel s' (fun _ => false)
+      if w.2 then some s' else innerLoop E fuel s' #[]
 
 /-- the `for (iter …)` loop of the repaired code -/
 def outerLoop (E : B3Env) : (fuel : Nat) → B3State → B3State × B3Exit
   | 0, s => (s, .iterCap)
   | fuel+1, s =>
     -- H2: large negative multipliers on G_ (complement of F \ H1)
-    let h2raw : Nat → Bool := fun i => !(s.inF i && !s.h1 i) && decide (s.y i < -E.tol)
+    let h2raw : Nat → Bool := fun i => !(atF s.inF i && !atF s.h1 i) && decide (at0 s.y i < -E.tol)
     -- make H1 and H2 disjoint
-    let h1 := memoB E.n fun i => s.h1 i && !h2raw i
-    let h2 := memoB E.n fun i => h2raw i && !s.h1 i
-    if countB E.n h2 = 0 && s.optF then (s, .converged) else
+    let h1 := tab E.n fun i => atF s.h1 i && !h2raw i
+    let h2 := tab E.n fun i => h2raw i && !atF s.h1 i
+    if countB E.n (atF h2) = 0 && s.optF then (s, .converged) else
     match innerLoop E E.innerFuel { s with h1 := h1 } h2 with
     | none => (s, .innerFuel)
     | some s1 =>
       -- F_ = F \ H1; update y on G_, zero x on G_ and y on F_
-      let inF_ : Nat → Bool := memoB E.n fun i => s1.inF i && !s1.h1 i
-      let d := E.dual inF_ s1.x
-      let s2 : B3State := { s1 with y := memo E.n fun i => if inF_ i then 0 else d i,
-                                    x := memo E.n fun i => if inF_ i then s1.x i else 0 }
+      let inF_ := tab E.n fun i => atF s1.inF i && !atF s1.h1 i
+      let s2 : B3State := { s1 with y := tab E.n fun i => if atF inF_ i then 0 else E.dual (atF inF_) (at0 s1.x) i,
+                                    x := tab E.n fun i => if atF inF_ i then at0 s1.x i else 0 }
       outerLoop E fuel s2
 
 /-- initial state: `x = 0`, `y = −Atb` (given as `y0`), everything constrained -/
 def b3Init (n : Nat) (y0 : Nat → Rat) : B3State :=
-  { x := fun _ => 0, y := memo n y0, inF := fun _ => false, h1 := fun _ => false, optF := true,
-    nFull := 0, nBoundary := 0, nWalk := 0 }
+  { x := #[], y := tab n y0, inF := #[], h1 := #[], optF := true, nFull := 0, nBoundary := 0, nWalk := 0 }
 
 def block3Run (E : B3Env) (y0 : Nat → Rat) : B3State × B3Exit := outerLoop E E.maxIter (b3Init E.n y0)
 
@@ -238,7 +236,7 @@ def exactEnv (n : Nat) (A : Mat) (b : Vec) (tol : Rat) (maxIter innerFuel : Nat)
   { n := n, tol := tol,
     solve := fun inF => match solveOn n A b ((List.range n).filter inF) with
       | some x => x
-      | none => fun _ => 0,
+      | none => #[],
     resid := fun inF xc => sumTo n fun i => if inF i then xc i * ((sumTo n fun j => if inF j then A i j * xc j else 0) - 2 * b i) else 0,
     dual := fun inF_ x i => (sumTo n fun j => if inF_ j then A i j * x j else 0) - b i,
     maxIter := maxIter, innerFuel := innerFuel }
